@@ -14,7 +14,9 @@ package main
 
 import (
 	"bytes"
+	"encoding/json"
 	"fmt"
+	"io"
 	"path/filepath"
 	"sort"
 	"strings"
@@ -58,6 +60,40 @@ func setup(args map[string]string, tier string) error {
 		return fmt.Errorf("corpus lacks the popular licenses the workload is biased to")
 	}
 	return nil
+}
+
+// refReq asks a fresh process for Match results on a canonically built
+// instance (sorted insertion, no unrelated documents, no tracing, no history).
+type refReq struct {
+	Docs      []int    `json:"docs"`  // indices into the corpus
+	Twins     []int    `json:"twins"` // positions in Docs whose text is added again under the name Twin-<k>
+	Threshold float64  `json:"threshold"`
+	Inputs    [][]byte `json:"inputs"`
+}
+
+func worldDocs(r *refReq) []v2kit.Doc {
+	var w []v2kit.Doc
+	for _, j := range r.Docs {
+		w = append(w, docs[j])
+	}
+	for k, p := range r.Twins {
+		d := w[p]
+		w = append(w, v2kit.Doc{Category: d.Category, Name: fmt.Sprintf("Twin-%d", k), Variant: d.Variant, Data: d.Data})
+	}
+	return w
+}
+
+func refServe(in io.Reader, out io.Writer) error {
+	var req refReq
+	if err := json.NewDecoder(in).Decode(&req); err != nil {
+		return err
+	}
+	c := v2kit.Build(req.Threshold, worldDocs(&req))
+	res := make([]classifier.Results, len(req.Inputs))
+	for i, x := range req.Inputs {
+		res[i] = c.Match(x)
+	}
+	return json.NewEncoder(out).Encode(res)
 }
 
 type instance struct {
@@ -133,10 +169,13 @@ func run(c *hlib.Ctx) *hlib.Run {
 			}
 			sort.Ints(idx)
 		}
-		world := make([]v2kit.Doc, len(idx))
-		for i, j := range idx {
-			world[i] = docs[j]
+		req := &refReq{Docs: idx, Threshold: threshold}
+		if !full {
+			for k := 0; k < s.Pick([]int{3, 2, 1, 1}, "n-twins"); k++ {
+				req.Twins = append(req.Twins, s.Draw(len(idx), "twin-of"))
+			}
 		}
+		world := worldDocs(req)
 		ninst := 1 + s.Draw(3, "instances")
 		if full {
 			ninst = 1 + s.Draw(2, "instances")
@@ -184,8 +223,25 @@ func run(c *hlib.Ctx) *hlib.Run {
 		inputs := make([]v2kit.Input, nin)
 		for i := range inputs {
 			inputs[i] = pool.Gen(s, []int{0, 0, 4000, 20000}[s.Draw(4, "maxlen")])
+			req.Inputs = append(req.Inputs, inputs[i].Data)
 		}
 		ref := map[int]*observation{}
+		// results of a separately built instance in a separate, fresh process
+		var fresh []classifier.Results
+		if c.Args["noref"] == "" {
+			rb, _ := json.Marshal(req)
+			ans, err := hlib.CallReference(c.Args, c.Tier, rb)
+			if err != nil {
+				panic("reference process failed: " + err.Error())
+			}
+			if err := json.Unmarshal(ans, &fresh); err != nil || len(fresh) != nin {
+				panic(fmt.Sprintf("reference process answer unusable: %v", err))
+			}
+			for i := range fresh {
+				ref[i] = &observation{fresh[i], fmt.Sprintf("Match(input %d %q) on a canonically built instance in a fresh process (no history, no tracing)", i, inputs[i].Desc)}
+			}
+			out.Counters["reference_process_results"] += int64(nin)
+		}
 
 		// ---- history -------------------------------------------------------
 		cur := 0
@@ -261,8 +317,8 @@ func run(c *hlib.Ctx) *hlib.Run {
 					insts[cur].c.SetTraceConfiguration(nil)
 					traceOn = "nil"
 				} else {
-					ph := []string{"*", "tokenize", "searchset", "score", "frequency", "tokenize,score", ""}[s.Draw(7, "trace-phases")]
-					li := []string{"*", "License/MIT*", "License/Apache*", "Header/*", "License/BSD-3-Clause/license.txt", ""}[s.Draw(6, "trace-licenses")]
+					ph := []string{"*", "searchset", "score", "tokenize", "frequency", "tokenize,score", "searchset,score", ""}[s.Draw(8, "trace-phases")]
+					li := []string{"*", "*", "License/*", "License/MIT*", "License/Apache*", "Header/*", "License/BSD-3-Clause/license.txt", ""}[s.Draw(8, "trace-licenses")]
 					n := 0
 					insts[cur].c.SetTraceConfiguration(&classifier.TraceConfiguration{TracePhases: ph, TraceLicenses: li, Tracer: func(string, ...interface{}) { n++ }})
 					traceOn = fmt.Sprintf("phases=%q licenses=%q", ph, li)
@@ -332,15 +388,18 @@ func firstLine(s string) string {
 
 func main() {
 	hlib.Main(&hlib.Harness{
-		Property: "C04",
-		Setup:    setup,
-		Run:      run,
+		Property:  "C04",
+		Setup:     setup,
+		Run:       run,
+		Isolate:   true,
+		Reference: refServe,
 		Info: func() map[string]any {
 			return map[string]any{
 				"real_code":   []string{"v2 classifier package, re-compiled from the tree under test after source instrumentation (map-range seam only)", "go-diff, go-spew: unmodified"},
 				"simulated":   []string{"iteration order of every map ranged over in package classifier (seeded permutation per range statement execution)", "io.Reader for MatchFrom operations"},
 				"unmodelled":  simrt.Unmodelled(),
-				"model":       "reference = first Results observed for (world, input bytes); every later observation on any instance, at any point of the history, under any map permutation and trace configuration must be bit-identical",
+				"processes":   "every run executes in a fresh child process; the reference results come from a second fresh process that builds the corpus canonically and only calls Match",
+				"model":       "reference = Results of the fresh reference process (else the first Results observed for (world, input bytes); every later observation on any instance, at any point of the history, under any map permutation and trace configuration must be bit-identical)",
 				"not_checked": "that results are right (C01-C03), trace text",
 			}
 		},
